@@ -438,7 +438,8 @@ def run_case(chk, ob, ip, prog, case, props, extra_judge=None):
 
 # ----------------------------------------------------------------------------------------------- pooler commands
 CMD_RX = [
-    ('SetShardingKey', re.compile(rb"^\s*SET\s+SHARDING\s+KEY\s+TO\s+'?(-?[0-9]+)'?\s*;?\s*$", re.I)),
+    # (digits only: a signed literal is not in the documented command language -- C13 -- and is ordinary SQL for the server)
+    ('SetShardingKey', re.compile(rb"^\s*SET\s+SHARDING\s+KEY\s+TO\s+'?([0-9]+)'?\s*;?\s*$", re.I)),
     ('SetShard', re.compile(rb"^\s*SET\s+SHARD\s+TO\s+'?([0-9]+|ANY)'?\s*;?\s*$", re.I)),
     ('ShowShard', re.compile(rb"^\s*SHOW\s+SHARD\s*;?\s*$", re.I)),
     ('SetServerRole', re.compile(rb"^\s*SET\s+SERVER\s+ROLE\s+TO\s+'?(PRIMARY|REPLICA|ANY|AUTO|DEFAULT)'?\s*;?\s*$", re.I)),
